@@ -9,10 +9,16 @@ import (
 	"github.com/titpetric/vuego/internal/parser"
 )
 
+// maxIncludeDepth bounds the include chain so that circular includes fail instead of overflowing the stack.
+const maxIncludeDepth = 100
+
 // evalInclude processes a <template include="..."> tag with the given vars map.
 // Handles stack push/pop properly using defer to ensure cleanup even on error.
 func (v *Vue) evalInclude(ctx VueContext, node *html.Node, vars map[string]any, depth int) ([]*html.Node, error) {
 	verifPoint(vpIncludeEnter, depth, len(ctx.TemplateStack))
+	if len(ctx.TemplateStack) > maxIncludeDepth {
+		return nil, fmt.Errorf("include depth exceeded maximum of %d, possible circular include: %s", maxIncludeDepth, ctx.FormatTemplateChain())
+	}
 	ctx.stack.Push(vars)
 	defer ctx.stack.Pop()
 
